@@ -5,7 +5,7 @@ From Coq Require Import ExtrOcamlBasic List NArith ZArith String.
 Require Import Lib.GoStr Ssz.Sha256 Ssz.Ssz Ssz.Rotation.
 Require Import Fsm.EngineDefs Fsm.Types Fsm.Engine Fsm.Actions Fsm.Provider.
 Require Import Node.Types Node.Process.
-Require Import Board.File Board.Raw Node.ResetPoll Node.GenReDKG Node.Adapt Node.FileName Node.Serial Crypto.Zr Air.Machine Node.ReinitHash Air.Terms Air.Lock Crypto.DealCheck Air.Reject Air.Reinit.
+Require Import Board.File Board.Raw Node.ResetPoll Node.GenReDKG Node.Adapt Node.FileName Node.Export Node.Serial Crypto.Zr Air.Machine Node.ReinitHash Air.Terms Air.Lock Crypto.DealCheck Air.Reject Air.Reinit.
 Require Gen.Skeletons.
 Extraction Language OCaml.
 Set Extraction Optimize.
@@ -15,7 +15,7 @@ Extraction "model.ml"
   dec_of_Z parse_int64
   fsm_case from_dump inst_do obs_of_do dump_of create round_step do_on_dump mem_case
   node_case node_step recover classify ops_visible
-  run_script reinit_hash hash_input gen_redkg adapt file_name
+  run_script reinit_hash hash_input gen_redkg adapt file_name export_batch add_sig tget'
   accepts round_outcome aclass_of handle_reinit fresh_rmach
   result_of result_line coeffs_coincide group_coincides shares_coincide tick_waits_during_command gap_saves_without_password
   lagrange0_z share_z group_secret_z eval_poly
